@@ -388,8 +388,7 @@ theorem nibble_sim_rev (q x : Nat) (hq : q < 256) (hx : x < 16) {st' : Nat} {acc
     simp only [he] at h
     cases ht : trun (descend hpackHuffTree (pathOf q)) (pathOf q) (bits4 x) [] with
     | none =>
-      simp only [ht, ne_eq, decide_not, Bool.not_eq_eq_eq_not, Bool.not_true, decide_eq_false_iff_not,
-        Decidable.not_not] at hchk
+      simp only [ht, ne_eq, decide_not, Bool.not_eq_eq_eq_not, Bool.not_true, decide_eq_false_iff_not] at hchk
       simp [hchk] at h
     | some r =>
       obtain ⟨t', p', o⟩ := r
